@@ -2,14 +2,21 @@
 """markfixed.py PROP MECHANISM COMMIT  - turn a known_findings.d entry into a 'fixed' record (suppresses nothing)."""
 import json, sys, glob, os
 prop, mech, commit = sys.argv[1:4]
-fn = os.path.join(os.path.dirname(os.path.dirname(os.path.abspath(__file__))), 'known_findings.d', prop + '.json')
-d = json.load(open(fn))
+root = os.path.dirname(os.path.dirname(os.path.abspath(__file__)))
 hit = 0
-for e in d['findings']:
-    if e.get('mechanism') == mech and e.get('status', 'known') == 'known':
-        e['status'] = 'fixed'
-        e['commit'] = commit
-        e['line'] = 'fixed: property=%s %s %s' % (prop, commit, e['what'])
-        hit += 1
-json.dump(d, open(fn, 'w'), indent=1)
+for fn in (os.path.join(root, 'known_findings.d', prop + '.json'), os.path.join(root, 'known_findings.json')):
+    if not os.path.exists(fn):
+        continue
+    d = json.load(open(fn))
+    n = 0
+    for e in d['findings']:
+        if e.get('property') == prop and e.get('mechanism') == mech and e.get('status', 'known') == 'known':
+            e['status'] = 'fixed'
+            e['commit'] = commit
+            e['line'] = 'fixed: property=%s %s %s' % (prop, commit, e['what'])
+            e.pop('why_not_fixed', None)
+            n += 1
+    if n:
+        json.dump(d, open(fn, 'w'), indent=1)
+    hit += n
 print(prop, mech, 'marked' if hit else 'NOT FOUND')
